@@ -123,6 +123,20 @@ def dhash(keys, amps):
 def amplitudes(ctx, m, kind):
     """unit vector of m non-zero amplitudes, |a_i| >= 0.02·(1/sqrt m)-ish (kept away from 0)"""
     r = ctx.rng
+    if kind == "tail":
+        # heavy head, light tail: one or two amplitudes carry almost all the norm, the others are 1e-4..1e-3 in
+        # modulus (complex / negative) - the mass still to be loaded after the head is tiny but NOT zero, which is
+        # the boundary of `(norm - phase) < 0` in util._compute_matrix_angles and of the merge angle formulas;
+        # half of the time the light entries come last (CVO-QRAM loads in dictionary order)
+        h = 1 if m <= 2 else r.choice([1, 2])
+        head = [complex(r.uniform(0.5, 1.0) * r.choice([-1, 1]), r.uniform(-0.5, 0.5)) for _ in range(h)]
+        tail = [complex(r.uniform(1e-4, 1e-3) * r.choice([-1, 1]), r.uniform(1e-4, 1e-3) * r.choice([-1, 0, 1]))
+                for _ in range(m - h)]
+        v = head + tail
+        if r.random() < 0.5:
+            r.shuffle(v)
+        nrm = math.sqrt(sum(abs(z) ** 2 for z in v))
+        return [complex(z.real / nrm + 0.0, z.imag / nrm + 0.0) for z in v]
     while True:
         if kind == "pos":
             v = [complex(r.uniform(0.2, 1.0), 0.0) for _ in range(m)]
@@ -308,6 +322,18 @@ def oracle_case(ctx, alg, opts, keys, amps, kind, form="opt", wires=None, allow_
                sample={"variant": name, "n": n, "m": m, "kind": kind, "keys": keys[:6], "worst_abs_err": worst})
         ctx.count(f"oracle:{name}")
         return
+    if alg == "pivot" and worst <= 1e-3:
+        # Known precision limit of qiskit's A.2 pass in the dense hand-off (LowRankInitialize -> qclib.unitary.unitary(...,
+        # apply_a2=True); findings K-C01-1 / K-C07-1): if the SAME construction with `qclib.unitary._apply_a2` replaced by the
+        # identity meets the tolerance, the deviation belongs to that pass and not to the pivot bookkeeping.
+        err2 = _recheck_without_a2(alg, opts, d, form, wires, width, exp)
+        if err2 is not None and err2 <= TOL:
+            ctx.count("a2-precision:pivot dense hand-off")
+            ctx.fail(f"pivot:dense-a2-precision:n={n}:m={m}:{kind}" + (":aux" if opts["aux"] else ""),
+                     f"worst abs err {worst:.3e} on the full register; with qclib.unitary._apply_a2 bypassed the error is "
+                     f"{err2:.3e}: precision limit of qiskit's A.2 pass inside the dense LowRankInitialize hand-off",
+                     pl(alg, opts, keys, amps, {"worst_abs_err": worst, "err_without_a2": err2}))
+            return
     # classify, most specific first
     listed = np.array([idx(k) for k in keys])
     mask_listed = np.zeros(2 ** width, dtype=bool)
@@ -325,6 +351,21 @@ def oracle_case(ctx, alg, opts, keys, amps, kind, form="opt", wires=None, allow_
         i = int(np.argmax(err * mask_listed))
         what, det = "listed-amplitude", f"basis {i:0{width}b}: got {sv[i]:.6f} expected {exp[i]:.6f}"
     ctx.fail(f"{name}:{what}:{tag}", f"{det}; worst abs err {worst:.3e}", pl(alg, opts, keys, amps, {"worst_abs_err": worst}))
+
+
+def _recheck_without_a2(alg, opts, d, form, wires, width, exp):
+    """same construction with `qclib.unitary._apply_a2` replaced by the identity (harness-side monkey patch)"""
+    from unittest import mock
+    from qiskit.quantum_info import Statevector
+    import qclib.unitary as qu
+    try:
+        with mock.patch.object(qu, "_apply_a2", lambda circuit: circuit):
+            with time_limit(BUILD_LIMIT_S):
+                circ = build(alg, opts, d, form, wires, width).definition
+            sv = np.asarray(Statevector(circ).data)
+        return float(np.abs(sv - exp).max())
+    except Exception:
+        return None
 
 
 def tie_case(ctx, alg, opts, keys, amps):
@@ -398,8 +439,59 @@ def _close(a, b, tol, period=None):
     return abs(d) <= tol
 
 
+def _umat(th, ph, la, ga=0.0):
+    c, sn = math.cos(th / 2), math.sin(th / 2)
+    import cmath
+    g = cmath.exp(1j * ga)
+    return [g * c, -g * cmath.exp(1j * la) * sn, g * cmath.exp(1j * ph) * sn, g * cmath.exp(1j * (ph + la)) * c]
+
+
+def cvo_effects(lines):
+    """Well-conditioned form of a CVO-QRAM dump.  The k-th rotation acts on the flag branch, whose amplitude is sqrt(norm_k);
+    what the circuit does to the state is `matrix * sqrt(norm_k)` (second column: the loaded amplitude x_k and the mass left on
+    the flag, sqrt(norm_k - |x_k|^2)).  The angle itself is NOT well conditioned: alpha = 2 acos(sqrt((norm-|x|^2)/norm)) moves
+    by ~sqrt(1e-16/norm) when norm - |x|^2 is rounding noise (last pattern, or a light tail: norm ~ 1e-7 gives 3e-5), while the
+    state moves by ~1e-8.  So `load` lines become (norm, matrix*sqrt(norm)) and every rotation gate line (u2 / cu / mcu:*)
+    becomes its 2x2 matrix times sqrt(norm_k) of the k-th load; both are then compared to the oracle's absolute tolerance."""
+    from framework import parse_line
+    norms, out, k = [], [], 0
+    for ln in lines:
+        name, wires, ps = parse_line(ln)
+        if name == "load" and len(ps) == 4 and not any(isinstance(p, str) for p in ps):
+            norms.append(ps[0])
+            sq = math.sqrt(max(ps[0], 0.0))
+            out.append(("load", wires, [ps[0]], [z * sq for z in _umat(ps[1], ps[2], ps[3])]))
+        elif (name in ("u2", "cu") or name.startswith("mcu")) and not any(isinstance(p, str) for p in ps):
+            sq = math.sqrt(max(norms[k], 0.0)) if k < len(norms) else 1.0
+            k += 1
+            mat = _umat(*ps) if name == "cu" else [complex(ps[2 * i], ps[2 * i + 1]) for i in range(4)] if len(ps) == 8 else None
+            if mat is None:
+                out.append((name, wires, ps, []))
+            else:
+                out.append((name, wires, [], [z * sq for z in mat]))
+        else:
+            out.append((name, wires, ps, []))
+    return out
+
+
+def compare_cvo(impl, model):
+    a, b = cvo_effects(impl), cvo_effects(model)
+    if len(a) != len(b):
+        return f"length {len(a)} vs {len(b)}"
+    for i, ((n1, w1, p1, m1), (n2, w2, p2, m2)) in enumerate(zip(a, b)):
+        bad = n1 != n2 or w1 != w2 or len(p1) != len(p2) or len(m1) != len(m2)
+        if not bad:
+            bad = any((p != q) if (isinstance(p, str) or isinstance(q, str)) else not _close(p, q, 1e-9) for p, q in zip(p1, p2)) \
+                or any(abs(x - y) > TOL for x, y in zip(m1, m2))
+        if bad:
+            return f"line {i}: impl={impl[i]!r} model={model[i]!r} (compared as matrix*sqrt(norm): {m1} vs {m2})"
+    return None
+
+
 def compare(op, impl, model):
     from framework import parse_line
+    if op.get("op") == "cvo" and len(impl) == len(model):
+        return compare_cvo(impl, model)
     if len(impl) != len(model):
         for i, (x, y) in enumerate(zip(impl, model)):
             if compare(op, [x], [y]):
@@ -434,7 +526,7 @@ def compare(op, impl, model):
 # run
 # ----------------------------------------------------------------------------------------------
 
-KINDS = ["complex", "signed", "pos", "mixed", "uniform"]
+KINDS = ["complex", "signed", "pos", "mixed", "uniform", "tail"]
 
 
 def merge_operand_kinds(keys):
@@ -529,6 +621,38 @@ def branch_coverage_cases(ctx, variants):
                 if (alg, opts) in variants:
                     tie_case(ctx, alg, opts, keys, amps)
                 oracle_case(ctx, alg, opts, keys, amps, kind)
+
+
+def light_tail_cases(ctx, variants):
+    """heavy head / light tail (moduli 1e-4..1e-3): the mass still to load after a pattern is tiny but not zero — the boundary
+    of `(norm - phase) < 0` in _compute_matrix_angles, of the merge angle formulas and of the dense hand-off"""
+    quick = ctx.quick
+    names = {vname(*v) for v in variants}
+    allv = variants + [v for v in ORACLE_EXTRA if vname(*v) not in names and len(names) == len(VARIANTS)]
+    fixed_amps = [0.8, 0.6, 1e-3, -8e-4j, (6 + 6j) * 1e-4]
+    nrm = math.sqrt(sum(abs(z) ** 2 for z in fixed_amps))
+    fixed_amps = [complex(z) / nrm for z in fixed_amps]
+    fixed = [(["000", "001", "010", "101", "111"], fixed_amps), (["0000", "1000", "0011", "0110", "1011"], fixed_amps)]
+    for keys, amps in fixed:
+        for alg, opts in allv:
+            ks = list(keys)            # already Hamming-sorted: the heavy head is loaded first by CVO-QRAM
+            if (alg, opts) in variants:
+                tie_case(ctx, alg, opts, ks, amps)
+            oracle_case(ctx, alg, opts, ks, amps, "tail-fixed")
+    for n, m in [(2, 3), (3, 4), (3, 6), (4, 5), (4, 9), (5, 7)] + ([] if quick else [(5, 12), (6, 10), (6, 20)]):
+        for rep in range(2 if quick else 4):
+            sub = ctx.rng.sample(all_keys(n), m)
+            for alg, opts in allv:
+                if not valid(alg, opts, m):
+                    continue
+                keys = order_for(ctx, alg, sub)
+                amps = amplitudes(ctx, m, "tail")
+                if alg == "cvo" and rep % 2 == 0:      # head first, tail last in load order
+                    amps = sorted(amps, key=lambda z: -abs(z))
+                if (alg, opts) in variants:
+                    tie_case(ctx, alg, opts, keys, amps)
+                oracle_case(ctx, alg, opts, keys, amps, "tail")
+                ctx.count(f"branch:light-tail:{vname(alg, opts)}")
 
 
 def float_typed_cases(ctx, variants):
@@ -739,6 +863,7 @@ def run(ctx, nmax_or=None, n_orders=None, only=None):
     variants = [v for v in VARIANTS if only is None or vname(*v) in only]
     string_ops_tie(ctx, 4 if quick else 5)
     branch_coverage_cases(ctx, variants)
+    light_tail_cases(ctx, variants)
     float_typed_cases(ctx, variants)
     entry_form_cases(ctx, variants)
     boundary_cases(ctx, variants)
